@@ -27,7 +27,7 @@ RULE = (
     "distinct = (document, raise point, handler); non-trivial = the raise point was reached (model event) and, "
     "for handled cases, output continued after the handler."
 )
-RULE += ' added since: caller probes, raising default arguments of nested defs, BaseException subclasses raised at every point (handlers catching Exception must not see them), format_exceptions with output_encoding (bytes), defs decorated with supports_caller. error_handler and format_exceptions also for exceptions deriving from BaseException only. Template-level handlers on get_def(name) renders (5 def shapes x 3 routes).'
+RULE += ' added since: caller probes, raising default arguments of nested defs, BaseException subclasses raised at every point (handlers catching Exception must not see them), format_exceptions with output_encoding (bytes), defs decorated with supports_caller. error_handler and format_exceptions also for exceptions deriving from BaseException only. Template-level handlers on get_def(name) renders (5 def shapes x 3 routes). error pages for lines beyond the kept source (preprocessor, replaced file) and with a `loop` variable under enable_loop=False.'
 ASSUMPTIONS = [
     "reference interpreter mk/tdoc.py; exceptions are raised by harness-provided objects so identity is checkable",
     "raise points are positions between nodes of the document; Python-level faults inside Mako's own runtime "
@@ -37,6 +37,7 @@ MIN_NONTRIVIAL = 300
 REQUIRED_COUNTERS = ["raise_points_reached", "handled_by_try", "unhandled_identity_checked", "render_context_markers_checked",
                      "error_handler_checked", "format_exceptions_checked", "format_exceptions_bytes_checked", "second_renders_checked", "include_handler_checked", "frames_checked",
                      "filter_decorator_cache_raise_points"]
+REQUIRED_COUNTERS += ["error_pages_beyond_source"]
 REQUIRED_COUNTERS += ["get_def_handler_routes"]
 
 _st = {}
